@@ -68,6 +68,24 @@ fn sym_foreign(policy: usize, mode: usize, r: &mut Rng) -> Case8 {
     Case8 { c, orig }
 }
 
+/// unsecured chunks an outsider can put on the wire ahead of the sweep: an OPN chunk naming the policy None (the
+/// receive path hands it on untouched), one naming an unknown policy, a chunk too short to parse.  None of them
+/// may change what the channel does with the secured chunks that follow.
+fn preamble(kind: u64, r: &mut Rng) -> Vec<Vec<u8>> {
+    let none = |r: &mut Rng| { let n = r.below(40) as usize; opn_chunk(0, uri_bytes(0, 0, r), &Cert::Null, &Thumb::Null, &Enc::Garbage(8 + n), 5, 3, 77, r) };
+    match kind {
+        0 => vec![none(r)],
+        1 => vec![opn_chunk(0, uri_bytes(2, 0, r), &Cert::Null, &Thumb::Null, &Enc::Garbage(12), 5, 3, 77, r), none(r)],
+        2 => vec![none(r), hdr(b"OPN", b'F', 12, 5), none(r)],
+        _ => vec![opn_chunk(0, uri_bytes(4, 0, r), &Cert::Null, &Thumb::Null, &Enc::Garbage(9), 5, 3, 77, r)],
+    }
+}
+fn with_pre(mut c: Case8, kind: u64, r: &mut Rng) -> Case8 {
+    c.c.pre = preamble(kind, r);
+    c.c.tag = format!("{}-after-unsecured-opn{}", c.c.tag, kind);
+    c
+}
+
 fn opn_original(policy: usize, sid: usize, rid: usize, body: usize, r: &mut Rng) -> Vec<u8> {
     opn_chunk(policy, uri_bytes(0, policy, r), &Cert::Of(sid), &Thumb::Of(rid),
               &Enc::Plain { body, padding: good_asym_padding(policy, body, sid, rid), signer: sid, good_sig: true, to: rid }, 5, 3, 77, r)
@@ -137,6 +155,9 @@ impl Property for P {
                     for kind in 0..3 { v.push(sym_sweep(policy, mode, kind, &mut r)); }
                 }
                 v.push(sym_foreign(policy, mode, &mut r));
+                let k = ((policy + mode) % 3) as u64;
+                let c = sym_sweep(policy, mode, (policy + 2 * mode) % 3, &mut r); v.push(with_pre(c, k, &mut r));
+                if tier == "thorough" { let c = sym_foreign(policy, mode, &mut r); v.push(with_pre(c, 3 - k, &mut r)); }
             }
             let kinds: Vec<usize> = if tier == "thorough" { vec![0, 1, 2] } else { vec![policy % 3, 2] };
             for kind in kinds { v.push(opn_sweep(policy, kind, 0, 1, &mut r)); }
@@ -147,8 +168,8 @@ impl Property for P {
         let thorough = THOROUGH.with(|t| t.get());
         let policy = 1 + r.below(5) as usize;
         match r.below(8) {
-            0 | 1 | 2 => sym_sweep(policy, 1 + r.below(2) as usize, r.below(3) as usize, r),
-            3 => sym_foreign(policy, 1 + r.below(2) as usize, r),
+            0 | 1 | 2 => { let c = sym_sweep(policy, 1 + r.below(2) as usize, r.below(3) as usize, r); if r.chance(1, 3) { let k = r.below(4); with_pre(c, k, r) } else { c } }
+            3 => { let c = sym_foreign(policy, 1 + r.below(2) as usize, r); if r.chance(1, 2) { let k = r.below(4); with_pre(c, k, r) } else { c } }
             _ => {
                 let (sid, rid) = if thorough && r.chance(1, 4) { if policy <= 2 { (2, 3) } else { (4, 5) } } else if r.chance(1, 2) { (0, 1) } else { (1, 0) };
                 opn_sweep(policy, r.below(3) as usize, sid, rid, r)
@@ -158,7 +179,8 @@ impl Property for P {
     fn exec(c: &Case8) -> Out {
         let (term, out) = exec_case(&c.c);
         debug_assert!(c.c.reset_policy);
-        let term = format!("(mk_case8 {} {})", term, coq_list(&c.orig, |b| coq_bool(*b).to_string()));
+        let pre = PRE_VIEWS.with(|p| p.borrow().join("; "));
+        let term = format!("(mk_case8 {} {} [{}])", term, coq_list(&c.orig, |b| coq_bool(*b).to_string()), pre);
         Out { tag: c.c.tag.clone(), term, out }
     }
 }
